@@ -108,7 +108,12 @@ namespace sim
     for (int i = 0; i < nfiles; ++i)
       {
         WorldInfo w;
-        if (rng.chance(0.45) || ok.empty())
+        if (rng.chance(0.1))
+          {
+            gen_edge_world(rng, w);
+            s.generator = "c01+edge";
+          }
+        else if (rng.chance(0.45) || ok.empty())
           {
             GenWorld g = gen_rich_world(rng, false);
             w = analyse_world("gen" + std::to_string(i) + ".wb", g.json);
